@@ -106,7 +106,7 @@ GRV_CMD(segapi) {
                     if (!(natural > 0) || !std::isfinite(natural)) natural = 100;
                     const std::string wd = (*o)["width"].s;
                     const double width = wd == "neg" ? -1.0 : wd == "zero" ? 0.0 : wd == "natural" ? natural : 2 * natural;
-                    fflush(tr); alarm(10);
+                    fflush(tr); alarm(90);
                     g_allbase = (dir & 1) ? 0 : 1;      // (in a right-to-left segment the sibling links of the bases run backwards)
                     for (int id : ln) if (gr_slot_attached_to(slots[id - 1])) g_allbase = 0;
                     g_jtr = tr; g_rule_sink = just_sink;
